@@ -9,7 +9,7 @@
 set -u
 TESTS=0
 if [ "${1:-}" = "--tests" ]; then TESTS=1; shift; fi
-TR=${@:-flip notforms demorgan ifsplit ifmerge elsedrop elseadd rename temps extract}
+TR=${@:-flip notforms demorgan ifsplit ifmerge elsedrop elseadd rename temps extract comp2loop loop2comp ternary unternary unaug}
 cd /verif
 RC=0
 for t in $TR; do
@@ -18,7 +18,7 @@ for t in $TR; do
   (cd /repo && git ls-files | rsync -a --files-from=- /repo/ $S/)
   /venv/bin/python -B tools/autorefactor.py $S $t || { echo "$t: transform failed"; RC=2; rm -rf $S; continue; }
   if [ $TESTS = 1 ]; then
-    (cd $S && PATH=/venv/bin:$PATH /venv/bin/python -m pytest -q -p no:cacheprovider -x -n 8 tests/unit cylc/flow 2>&1 | tail -3)
+    (cd $S && PATH=/venv/bin:$PATH /venv/bin/python -m pytest -q -p no:cacheprovider -n 8 tests/unit cylc/flow 2>&1 | grep -E "^(FAILED|ERROR)|passed|failed" | grep -v "test_hostuserutil" | tail -8)
   fi
   ls rules | grep '^C[0-9]*\.py$' | sed 's/\.py$//' | xargs -P 12 -I{} sh -c \
     "VERIF_REPO=$S ./check {} --tier quick > $S.{}.log 2>&1; echo \"{} exit=\$?\"" | sort > $S.res
